@@ -45,7 +45,7 @@ def snap_all(blob, daq=None):
             else:
                 tf = TdmsFile.read(io.BytesIO(blob), raw_timestamps=(mode == 'eager-raw_ts'))
             try:
-                out[mode] = C.snapshot(tf, with_data=True, scaled=(daq is None))
+                out[mode] = C.snapshot(tf, with_data=True, scaled=(daq is None), with_chunks=mode.startswith('lazy'))
             finally:
                 tf.close()
         except Exception as ex:
